@@ -107,7 +107,8 @@ def build_group_c(g, L0, allc, scratch, vacuity=False):
         cn = ct_of.get(flat, flat)
         c = allc.get(cn)
         with_fn = flat == enforce or flat in replace
-        with_loops = flat in loops_for
+        with_loops = flat in loops_for or flat in g.get('ghost_only_for', [])
+        gonly = flat in g.get('ghost_only_for', []) and flat not in loops_for
         if flat in replace and flat != enforce and not g.get('keep_replaced_bodies'):
             body = None   # replaced callee: contract on the declaration only
         if c is None or not (with_fn or with_loops):
@@ -125,7 +126,7 @@ def build_group_c(g, L0, allc, scratch, vacuity=False):
             if c.ghost_entry and body is not None and not with_loops:
                 fn = fn.replace('/*@ENTRY %s@*/' % flat, ' '.join(c.ghost_entry), 1)
             return decl + '\n' + fn
-        return ct.splice(flat, sig, body, c, with_fn, with_loops, tab[flat]['loops'], extra)
+        return ct.splice(flat, sig, body, c, with_fn, with_loops, tab[flat]['loops'], extra, ghost_only=gonly)
 
     g['_has_loop_contracts'] = any(ct_of.get(f, f) in allc and f in tab and (allc[ct_of.get(f, f)].loops) for f in loops_for)
     g['_enforce_fn'] = enforce_fn
